@@ -15,7 +15,7 @@ from vlib import log
 
 LEVEL_MC = "model_checking"
 # spec-flagged findings and the properties they are violations of
-KF_OWNER = {"v1-id-reuse": ("C07", "C15"), "v1-track-id-reuse": ("C15",)}
+KF_OWNER = {"v1-id-reuse": ("C07", "C15"), "v1-track-id-reuse": ("C15",), "v1-bpm-from-grid": ("C01",)}
 MAX_REPORTED = 5   # rejections confirmed and reported per run (the rest is only counted)
 
 
@@ -88,7 +88,8 @@ def history_check(prop, tier, seed, build_workloads, module="TraceLibrary", cfg=
             if len(violations) >= MAX_REPORTED:
                 unconfirmed += 1
                 continue
-            payload = libcheck.confirm_rejection(sh["_bin"], sh, rej, wd, nrep, sh["_module"], sh["_cfg"], watchdog=watchdog)
+            payload = libcheck.confirm_rejection(sh["_bin"], sh, rej, wd, nrep, rej.get("module", sh["_module"]),
+                                                 rej.get("cfg", sh["_cfg"]), watchdog=watchdog)
             if payload is None:
                 log("note: rejection in %s did not repeat on re-run; not reported" % sh["base"])
                 continue
@@ -137,6 +138,8 @@ def history_check(prop, tier, seed, build_workloads, module="TraceLibrary", cfg=
     cov = {"evaluations": evaluations, "distinct_nontrivial": nontrivial, "measured": m,
            "states": states, "transitions": trans,
            "traces_validated_against_impl": summary["accepted"],
+           "also_validated": {m: sum(sh["val"].get("also_accepted", {}).get(m, 0) for sh in shards)
+                              for m in sorted({m for sh in shards for m in sh["val"].get("also_accepted", {})})},
            "executions": summary["executions"], "trace_records": summary["records"],
            "trace_states_checked_by_tlc": summary["tlc_states"],
            "schemas": sorted({w.schema for w in workloads}, key=vlib.ALL.index),
@@ -368,8 +371,16 @@ def check_C09(tier, seed):
         mc_stats.extend([a[0], b[0]])
         for s in vlib.V2:
             r = random.Random(seed * 15485863 + vlib.ALL.index(s))
+            # on two schemas the stored rows are logged too and must be the rows the storage-layer model predicts
+            rows = s in ("2.18.0", "2.21.2") or tier != "quick"
             for st, sc in (a, b):
-                ws.append(Workload(s, r.sample(sc, min(nr, len(sc))), ["a", "b", "c", "d"], tag="r", origin=st["instance"]))
+                ws.append(Workload(s, r.sample(sc, min(nr, len(sc))), ["a", "b", "c", "d"], tag="r", origin=st["instance"],
+                                   flags={"raw": True} if rows else None, also=vlib.v2store_also(s) if rows else ()))
+        # the storage-layer model itself: chain invariants, refinement into Library, atomicity under Fail(k)
+        import mcv2store
+        stats, sens, problems = mcv2store.model_check(wd, tier, mc_stats, variants=(tier != "quick"))
+        if problems:
+            raise vlib.ToolFailure("; ".join(problems))
         return ws
 
     return history_check(
@@ -406,9 +417,34 @@ def check_C16(tier, seed):
             ws.append(Workload(s, pick3, libcheck.NAMES4 + ["d"], mode="disk", flags={"rep": True, "reopen": True}, origin=st["instance"]))
         return ws
 
+    def build_tracks(wd, mc_stats):
+        # track-level observers, also through handles to removed tracks (every getter of a stale handle is an observer too)
+        import trackchecks
+        res, bases, seqs = trackchecks.run_mc_track(wd, 1)
+        mc_stats.append({"instance": res["instance"], "states": res["states"], "transitions": res["generated"]})
+        mk = trackchecks.mk
+        singles = [sq[0] for sq in seqs if len(sq) == 1]
+        r = random.Random(seed * 17)
+        scripts = []
+        for a in sorted(bases):
+            for b in ("min", "full"):
+                ops = [mk("create", snap=bases[a]), mk("create", snap=dict(bases[b], relative_path=["other/t2.flac"])), mk("remove", t=1)]
+                for o in r.sample(singles, 3):
+                    ops.append(mk("set", t=2, f=o["f"], v=o["v"]))
+                ops += [mk("create", snap=dict(bases["min"], relative_path=["other/t3.wav"])), mk("remove", t=2), mk("remove", t=3)]
+                scripts.append(ops)
+        ws = []
+        for s in (vlib.REPR if tier == "quick" else vlib.ALL):
+            ws.append(Workload(s, scripts, [], flags={"rep": True, "stale_get": True}, tag="t", origin=res["instance"]))
+        return ws
+
+    import trackchecks as _tc
     return history_check(
         "C16", tier, seed, build,
-        rule="after every call of every replayed history the complete observation batch (every getter, listing and "
+        also=[{"driver": "trackdriver", "build": build_tracks, "module": "TraceTrackFields", "cfg": _tc.track_cfg()}],
+        rule="track level: histories of create / set / remove over three tracks with all 25 getters, the per-slot getters and snapshot() "
+             "of every live track AND of every handle to a removed track executed twice after every call (same NoWrite rule); crate level: "
+             "after every call of every replayed history the complete observation batch (every getter, listing and "
              "lookup of database / crate / track handles; on disk also database_exists() and load_database()) is "
              "executed twice; the trace spec (NoWrite) requires: no non-read-only statement stepped, "
              "sqlite3_total_changes unchanged, digest of all tables unchanged, second observation identical, and on "
@@ -492,8 +528,10 @@ def check_C11(tier, seed):
                                            mem_bounds=(3, 5, 13) if tier == "quick" else (3, 6, 14))
             r = random.Random(seed * 31 + vlib.ALL.index(s))
             n1, n2 = (250, 250) if tier == "quick" else (len(sc), len(sc2))
-            ws.append(Workload(s, sc if len(sc) <= n1 else r.sample(sc, n1), libcheck.NAMES4, flags={"raw": True}, origin=st["instance"]))
-            ws.append(Workload(s, sc2 if len(sc2) <= n2 else r.sample(sc2, n2), ["a", "d"], flags={"raw": True}, origin=st2["instance"]))
+            ws.append(Workload(s, sc if len(sc) <= n1 else r.sample(sc, n1), libcheck.NAMES4, flags={"raw": True}, origin=st["instance"],
+                               also=vlib.v2store_also(s)))
+            ws.append(Workload(s, sc2 if len(sc2) <= n2 else r.sample(sc2, n2), ["a", "d"], flags={"raw": True}, origin=st2["instance"],
+                               also=vlib.v2store_also(s)))
         return ws
 
     return history_check(
@@ -522,8 +560,12 @@ def check_C14(tier, seed):
                                            mem_bounds=(3, 5, 13) if tier == "quick" else (3, 6, 14))
             r = random.Random(seed * 131 + vlib.ALL.index(s))
             n1, n2 = (150, 150) if tier == "quick" else (len(sc), len(sc2))
-            ws.append(Workload(s, sc if len(sc) <= n1 else r.sample(sc, n1), libcheck.NAMES4, flags={"sweep": True}, origin=st["instance"]))
-            ws.append(Workload(s, sc2 if len(sc2) <= n2 else r.sample(sc2, n2), ["a", "d"], flags={"sweep": True}, origin=st2["instance"]))
+            v2 = vlib.family(s) == "v2"
+            fl = {"sweep": True, "raw": True} if v2 else {"sweep": True}
+            ws.append(Workload(s, sc if len(sc) <= n1 else r.sample(sc, n1), libcheck.NAMES4, flags=fl, origin=st["instance"],
+                               also=vlib.v2store_also(s)))
+            ws.append(Workload(s, sc2 if len(sc2) <= n2 else r.sample(sc2, n2), ["a", "d"], flags=dict(fl), origin=st2["instance"],
+                               also=vlib.v2store_also(s)))
         return ws
 
     return history_check(
@@ -546,3 +588,4 @@ from formatchecks import check_C02, check_C03, check_C04  # noqa: E402,F401
 from trackchecks import check_C01, check_C06  # noqa: E402,F401
 from decodercheck import check_C05  # noqa: E402,F401
 from tablecheck import check_C18  # noqa: E402,F401
+from ubcheck import check_C15  # noqa: E402,F401
